@@ -142,8 +142,10 @@ err_vadd(kdump_errmsg_t *err, const char *msgfmt, va_list ap)
 			msg = newbuf + msglen + 1;
 			remain = msglen;
 		} else if (remain) {
-			char lbuf[err->bufsz];
-			vsnprintf(lbuf, sizeof lbuf, msgfmt, ap);
+			/* Leave room for the delimiter, so that the tail
+			 * copied below never extends beyond the array. */
+			char lbuf[err->bufsz + sizeof(delim)];
+			vsnprintf(lbuf, err->bufsz, msgfmt, ap);
 			if (msglen - dlen >= err->bufsz) {
 				lbuf[err->bufsz - 2] = '>';
 				msglen = err->bufsz - 1 + dlen;
